@@ -572,8 +572,10 @@ DnsMessage::decodeNameWithLoopDetection(const std::uint8_t *data, std::size_t of
   bool jumped = false;
   std::size_t totalLength = 0;
 
-  while (offset < size)
+  while (true)
   {
+    // Only the root octet ends a name; running out of data before it is a truncation
+    checkBounds(offset, 1, size);
     std::uint8_t length = data[offset];
 
     // Check for compression
